@@ -627,10 +627,16 @@ impl Fleet {
                 }
                 Err(err) => {
                     let should_retry = is_retryable_error(&err);
+                    // Drop the cached connection whenever it can no longer be
+                    // used, not only when this call will be retried: keeping a
+                    // dead client would fail every later call on this node.
+                    let drop_connection = should_retry || is_connection_fatal(&err);
                     last_error = Some(err);
 
-                    if should_retry {
+                    if drop_connection {
                         invalidate_client(&node);
+                    }
+                    if should_retry {
                         if attempt + 1 < self.options.retry_policy.max_attempts {
                             thread::sleep(self.options.retry_policy.delay);
                         }
@@ -675,10 +681,16 @@ impl Fleet {
                 }
                 Err(err) => {
                     let should_retry = is_retryable_error(&err);
+                    // Drop the cached connection whenever it can no longer be
+                    // used, not only when this call will be retried: keeping a
+                    // dead client would fail every later call on this node.
+                    let drop_connection = should_retry || is_connection_fatal(&err);
                     last_error = Some(err);
 
-                    if should_retry {
+                    if drop_connection {
                         invalidate_client(&node);
+                    }
+                    if should_retry {
                         if attempt + 1 < self.options.retry_policy.max_attempts {
                             thread::sleep(self.options.retry_policy.delay);
                         }
@@ -766,6 +778,7 @@ fn is_retryable_error(err: &RepeError) -> bool {
                 | std::io::ErrorKind::ConnectionReset
                 | std::io::ErrorKind::ConnectionAborted
                 | std::io::ErrorKind::NotConnected
+                | std::io::ErrorKind::BrokenPipe
                 | std::io::ErrorKind::UnexpectedEof
                 | std::io::ErrorKind::WouldBlock
                 | std::io::ErrorKind::Interrupted
@@ -773,6 +786,20 @@ fn is_retryable_error(err: &RepeError) -> bool {
         RepeError::ServerError { .. } => false,
         _ => false,
     }
+}
+
+/// Errors after which the connection itself is unusable even though the call is
+/// not retried: any I/O failure, and the framing errors on which the client's
+/// response loop shuts the socket down (a reply it could not parse).
+fn is_connection_fatal(err: &RepeError) -> bool {
+    matches!(
+        err,
+        RepeError::Io(_)
+            | RepeError::InvalidSpec(_)
+            | RepeError::InvalidHeaderLength(_)
+            | RepeError::LengthMismatch { .. }
+            | RepeError::BufferTooSmall { .. }
+    )
 }
 
 fn invalidate_client(node: &Arc<NodeState>) {
